@@ -114,6 +114,12 @@ def main():
                     raise Broken("theorem %s: no Print Assumptions output" % t)
                 if extra:
                     raise Broken("theorem %s depends on axioms outside the allow-list" % t, ", ".join(extra))
+            if a.tier == "thorough":
+                ax = vlib.coqchk(prop)
+                cov["coqchk_axioms"] = ax
+                extra = [x for x in ax if x.split(".")[-1] not in set(y.split(".")[-1] for y in allow)]
+                if extra:
+                    raise Broken("coqchk: axioms outside the allow-list", ", ".join(extra))
         cov["obligations"] = len(thms)
         cov["discharged"] = len(thms)
         if hasattr(mod, "EXPLANATION"):
@@ -130,6 +136,7 @@ def main():
     # ---------------- 2. correspondence
     cases, impl, model = [], [], []
     fails = []
+    tie_fails = []
     try:
         vlib.build_coq(["Extract/DispatchS.vo"])
         vlib.build_model()
@@ -146,11 +153,24 @@ def main():
                 raise Broken("correspondence: case not executable on %s" % ("model" if not il.startswith(("BADCASE", "MISSING")) else "harness"),
                              "case: %s\nimpl: %s\nmodel: %s" % (c[:500], il[:300], ml[:300]))
             why = mod.oracle(c, il, ml)
-            if why:
+            if why and why.startswith("implementation and model disagree") and hasattr(mod, "tie_covered") and mod.tie_covered(c):
+                # the model/code correspondence broke on this case.  Ask the module's independent oracle
+                # (python reference / metamorphic law, evaluated on the implementation's output alone) whether
+                # the PROPERTY fails here; if it does not, this is a broken tie, not a failing input
+                why2 = mod.oracle(c, il, il)
+                if why2:
+                    fails.append((c, il, ml, why2))
+                else:
+                    tie_fails.append((c, il, ml))
+            elif why:
                 fails.append((c, il, ml, why))
         if hasattr(mod, "post"):
             for c, why in mod.post(cases, impl, model, a):
                 fails.append((c, "", "", why))
+        if tie_fails and not fails:
+            c, il, ml = tie_fails[0]
+            raise Broken("correspondence: implementation and model disagree on %d case(s) on which the independent oracle finds the property intact" % len(tie_fails),
+                         "first case: %s\nimpl : %s\nmodel: %s" % (c[:1500], il[:600], ml[:600]))
     except Broken as b:
         broken = broken or b
 
@@ -158,12 +178,12 @@ def main():
     reported = set()
     for c, il, ml, why in fails[:200]:
         def still(c2):
-            i2 = vlib.run_one(vlib.HARNESS_BIN, c2)
-            m2 = vlib.run_one(vlib.MODEL_BIN, c2)
+            i2 = vlib.run_one(vlib.HARNESS_BIN, c2, timeout=8)
+            m2 = vlib.run_one(vlib.MODEL_BIN, c2, timeout=20)
             if m2.startswith(("MODEL-", "BADCASE")) or i2.startswith("BADCASE"):
                 return False
             return bool(mod.oracle(c2, i2, m2))
-        small = vlib.shrink_case(c, still) if (len(reported) < 5 and getattr(mod, "SHRINK", True) and il != "") else c
+        small = vlib.shrink_case(c, still, budget=(25 if il.startswith("HANG") else 150)) if (len(reported) < 5 and getattr(mod, "SHRINK", True) and il != "") else c
         key = small
         if key in reported:
             continue
@@ -177,8 +197,13 @@ def main():
         violations += 1
         i2 = vlib.run_one(vlib.HARNESS_BIN, small) if il != "" else ""
         m2 = vlib.run_one(vlib.MODEL_BIN, small) if il != "" else ""
+        verdict = why
+        if il != "":
+            verdict = mod.oracle(small, i2, m2)
+            if verdict and verdict.startswith("implementation and model disagree") and hasattr(mod, "tie_covered") and mod.tie_covered(small):
+                verdict = mod.oracle(small, i2, i2) or verdict
         report_violation(prop, {"property": prop, "kind": "input", "case": small, "original_case": c,
-                                "impl": i2, "model": m2, "oracle": mod.oracle(small, i2, m2) if il != "" else why,
+                                "impl": i2, "model": m2, "oracle": verdict or why,
                                 "seed": a.seed, "shrunk": small != c})
     if broken is not None and violations == 0:
         # a proof obligation or the tie broke; the search above (the whole case budget on the
